@@ -69,9 +69,10 @@ public:
   {
     for (DataList *data = head_.get(); data != nullptr; data = data->next_.get())
     {
-      if (key.size() == data->key_length_)
+      // A node without a key (the head left by an empty iterable) holds no binding.
+      if (data->key_ != nullptr && key.size() == data->key_length_)
       {
-        if (std::memcmp(key.data(), data->key_, data->key_length_) == 0)
+        if (data->key_length_ == 0 || std::memcmp(key.data(), data->key_, data->key_length_) == 0)
         {
           return data->value_;
         }
